@@ -6,6 +6,7 @@
 
 mod util;
 mod c03;
+mod c15;
 
 use std::io::{BufRead, Write};
 
@@ -14,6 +15,9 @@ fn eval(op: &str, args: &[&str]) -> Option<Vec<String>> {
         "codec" => c03::codec(args),
         "estep" => c03::estep(args),
         "wire" => c03::wire(args),
+        "parse" => c15::parse(args),
+        "rr" => c15::rr(args),
+        "sinfo" => c15::sinfo(args),
         _ => None,
     }
 }
